@@ -251,6 +251,40 @@ func (r *run) generate() {
 		}
 	}
 
+	// ---- G. peer-ID SPELLINGS: the signature covers the string, whichever way the ID is written
+	for t := 0; t < nTypes; t++ {
+		signer := typeBase(t)
+		for _, provider := range []int{signer, (signer + 3) % len(pool.Ids)} {
+			for ps := 0; ps < nSpell; ps++ {
+				for _, codec := range []string{"", "dag-json", "dag-cbor"} {
+					a := baseScenario(seed(), signer, provider)
+					a.PSpell, a.Codec, a.Prev = ps, codec, ps%2 == 1
+					r.emit(a)
+					for es := 0; es < 3; es++ {
+						b := withEps(baseScenario(seed(), signer, provider), 3, 1, es == 1)
+						b.PSpell, b.Codec = ps, codec
+						b.Eps[0].Spell, b.Eps[2].Spell = es, (es+ps)%3
+						r.emit(b)
+					}
+				}
+				// the same peer respelled after signing: rejected
+				for idx := 0; idx < 2; idx++ {
+					a := baseScenario(seed(), signer, provider)
+					a.PSpell, a.Mut = ps, mutation{Kind: "respell", Ep: -1, Index: idx}
+					r.emit(a)
+					b := withEps(baseScenario(seed(), signer, provider), 2, 0, false)
+					b.PSpell, b.Eps[1].Spell = ps, (ps+idx)%3
+					b.Mut = mutation{Kind: "ep-respell", Ep: 1, Index: idx}
+					r.emit(b)
+				}
+			}
+			// an entry other than the main provider's that names no peer at all
+			j := withEps(baseScenario(seed(), signer, provider), 2, 0, false)
+			j.Eps[1].Spell = spellJunk
+			r.emit(j)
+		}
+	}
+
 	// ---- E. seeded random scenarios
 	for i := 0; i < r.c.Pick(800, 20000); i++ {
 		r.emit(r.randomScenario(rng))
@@ -298,7 +332,7 @@ func firstOtherOfType(a, b, c, t int) int {
 	return 0
 }
 
-var allMuts = []string{"", "", "", "prev", "entries", "provider", "addr", "metadata", "rm", "ctx", "override", "ep-id", "ep-addr", "ep-md",
+var allMuts = []string{"", "", "", "respell", "ep-respell", "prev", "entries", "provider", "addr", "metadata", "rm", "ctx", "override", "ep-id", "ep-addr", "ep-md",
 	"ep-drop", "ep-dup", "ep-swap-sigs", "ext-remove", "shift", "env-key", "env-payload", "env-sig", "env-type", "env-byte",
 	"sig-empty", "sig-garbage", "sig-truncate", "sig-append", "resign-other", "ep-sig-as-ad-sig"}
 
@@ -329,13 +363,19 @@ func (r *run) randomScenario(rng *vlib.Rand) *scenario {
 				}
 			}
 		}
+		if rng.Intn(3) == 0 {
+			sc.PSpell = rng.Intn(nSpell)
+			for i := range sc.Eps {
+				sc.Eps[i].Spell = rng.Intn(3)
+			}
+		}
 		sc.Codec = []string{"", "", "dag-json", "dag-cbor"}[rng.Intn(4)]
 		sc.Mut = mutation{Kind: allMuts[rng.Intn(len(allMuts))], Ep: -1, Index: rng.Intn(400), Mask: 1 << rng.Intn(8)}
 		if len(sc.Eps) > 0 && rng.Intn(2) == 0 {
 			sc.Mut.Ep = rng.Intn(len(sc.Eps))
 		}
 		switch sc.Mut.Kind {
-		case "ep-id", "ep-addr", "ep-md", "ep-drop", "ep-dup", "ep-swap-sigs", "ep-sig-as-ad-sig":
+		case "ep-id", "ep-addr", "ep-md", "ep-drop", "ep-dup", "ep-swap-sigs", "ep-sig-as-ad-sig", "ep-respell":
 			if len(sc.Eps) == 0 {
 				continue
 			}
